@@ -180,6 +180,31 @@ def run(rep: common.Report, tier: str, seed: int, replay=None) -> int:
         if not all(np.array_equal(a, p.points) for a, p in zip(snap, dev.polygons)) or \
                 (pp is not None and not np.array_equal(pp, dev.probe_points)):
             rep.violation("a non-in-place device operation (or an in-place operation on a copy) mutated the original device", {"device": di})
+        # points map consistently with the shapes: the device's own probe points and arbitrary sample points, for maps
+        # about non-default origins (reflection included)
+        ox, oy = rng.uniform(-2, 2), rng.uniform(-2, 2)
+        fx, fy = rng.choice([-1.7, 0.6, 2.2]), rng.choice([1.3, -0.8, 0.5])
+        deg = rng.uniform(-170, 170)
+        c_, s_ = np.cos(np.radians(deg)), np.sin(np.radians(deg))
+        maps = {
+            "scale": (dev.scale(xfact=fx, yfact=fy, origin=(ox, oy)),
+                      lambda Q: np.stack([ox + fx * (Q[:, 0] - ox), oy + fy * (Q[:, 1] - oy)], axis=1)),
+            "rotate": (dev.rotate(deg, origin=(ox, oy)),
+                       lambda Q: np.stack([ox + c_ * (Q[:, 0] - ox) - s_ * (Q[:, 1] - oy),
+                                           oy + s_ * (Q[:, 0] - ox) + c_ * (Q[:, 1] - oy)], axis=1)),
+            "translate": (dev.translate(ox, oy), lambda Q: Q + np.array([[ox, oy]])),
+        }
+        for nm, (dT, T) in maps.items():
+            mcase = {"device": di, "map": nm, "origin": [ox, oy], "factors": [fx, fy], "degrees": deg}
+            if dev.probe_points is not None:
+                if dT.probe_points is None or np.max(np.abs(np.asarray(dT.probe_points) - T(np.asarray(dev.probe_points, dtype=float)))) > 1e-9:
+                    rep.violation(f"Device.{nm} does not map the probe points with the shapes", mcase)
+            if not np.array_equal(dT.contains_points(T(P)), want):
+                rep.violation(f"Device.{nm}: points mapped with the device change side (inside / outside)", mcase)
+            for a, b in zip(dev.polygons, dT.polygons):
+                jac = abs(fx * fy) if nm == "scale" else 1.0
+                if abs(b.area - jac * a.area) > 1e-9 * max(1.0, jac * a.area):
+                    rep.violation(f"Device.{nm}: polygon {a.name!r} area is not the mapped area", mcase)
         for nm, d in (("scale", d2), ("rotate", d3), ("translate", d4)):
             for a, b in zip(dev.polygons, d.polygons):
                 if np.shares_memory(a.points, b.points):
